@@ -40,18 +40,30 @@ Section Model.
   Local Notation nint := (nint NO).
 
   (* ---- choice stream: remaining draws, "needed more than supplied", "C++ would be undefined here" ---- *)
-  Record cs := { c_rem : list (tok NO); c_under : bool; c_ub : bool }.
-  Definition set_ub (s : cs) : cs := {| c_rem := c_rem s; c_under := c_under s; c_ub := true |}.
+  Record cs := { c_rem : list (tok NO); c_under : bool;
+                 c_ub : bool;     (* the C++ would read an absent partial item here *)
+                 c_trap : bool;   (* random_idx(0) was requested (undefined in the code; trapped by the harness source) *)
+                 c_site : Z       (* ghost: first step after which the sample no longer had floor(c) full items and a
+                                     partial item iff frac(c) != 0: 1 = an item entered with theta > 1, 2 = downsample,
+                                     3 = sample merge; 0 = never (the only value possible in exact arithmetic) *) }.
+  Definition set_ub (s : cs) : cs :=
+    {| c_rem := c_rem s; c_under := c_under s; c_ub := true; c_trap := c_trap s; c_site := c_site s |}.
+  Definition set_trap (s : cs) : cs :=
+    {| c_rem := c_rem s; c_under := c_under s; c_ub := c_ub s; c_trap := true; c_site := c_site s |}.
+  Definition note_site (b : bool) (site : Z) (s : cs) : cs :=
+    if b && (c_site s =? 0) then
+      {| c_rem := c_rem s; c_under := c_under s; c_ub := c_ub s; c_trap := c_trap s; c_site := site |}
+    else s.
   Definition draw (s : cs) : tok NO * cs :=
     match c_rem s with
-    | [] => (tdflt NO, {| c_rem := []; c_under := true; c_ub := c_ub s |})
-    | t :: r => (t, {| c_rem := r; c_under := c_under s; c_ub := c_ub s |})
+    | [] => (tdflt NO, {| c_rem := []; c_under := true; c_ub := c_ub s; c_trap := c_trap s; c_site := c_site s |})
+    | t :: r => (t, {| c_rem := r; c_under := c_under s; c_ub := c_ub s; c_trap := c_trap s; c_site := c_site s |})
     end.
   Definition draw_unit (s : cs) : num * cs := let (t, s') := draw s in (tunit NO t, s').
   (* random_idx(max): a value in [0, max); max = 0 is undefined in the code *)
   Definition draw_idx (max : nat) (s : cs) : nat * cs :=
     match max with
-    | O => (O, set_ub s)
+    | O => (O, set_trap s)
     | _ => let (t, s') := draw s in (Z.to_nat (tidxZ NO t mod Z.of_nat max), s')
     end.
 
@@ -80,7 +92,7 @@ Section Model.
     end.
   Definition subsample (m : nat) (d : list Item) (s : cs) : list Item * cs :=
     if Nat.eqb m (length d) then (d, s)
-    else if Nat.ltb (length d) m then (d, set_ub s)
+    else if Nat.ltb (length d) m then (d, set_trap s)
     else let (d', s') := sub_loop m 0 d s in (firstn m d', s').
 
   (* move_one_to_partial() *)
@@ -193,6 +205,11 @@ Section Model.
     | d, None => if use_partial then (d, set_ub s1) else (d, s1)
     end.
 
+  (* the shape every operation relies on: floor(c) full items, a partial item iff frac(c) != 0 *)
+  Definition shape_ok (sm : sample) : bool :=
+    Nat.eqb (length (sdata sm)) (nnat NO (nint (sc sm))) &&
+    Bool.eqb (match spart sm with Some _ => true | None => false end) (negb (neqb (nsub (sc sm) (nint (sc sm))) n0)).
+
   (* ---- ebpps_sketch ---- *)
   Record sketch := { sk_k : Z; sk_n : Z; sk_cw : num; sk_wmax : num; sk_rho : num; sk_smp : sample }.
   Definition sketch_empty (k : Z) : sketch :=
@@ -210,8 +227,10 @@ Section Model.
     let new_cum := nadd cw dw in
     let new_rho := nmin (ndiv n1 wm) (ndiv (nofZ NO k) new_cum) in
     let (sm1, s1) := if nltb n0 cw then downsample (ndiv new_rho rho) sm s else (sm, s) in
-    let (sm2, s2) := smerge sm1 (replace_content it (th new_rho)) s1 in
-    ((new_cum, new_rho, sm2), s2).
+    let s1' := note_site (shape_ok sm && negb (shape_ok sm1)) 2 s1 in
+    let theta := th new_rho in
+    let (sm2, s2) := smerge sm1 (replace_content it theta) s1' in
+    ((new_cum, new_rho, sm2), note_site (shape_ok sm1 && negb (shape_ok sm2)) (if nltb n1 theta then 1 else 3) s2).
 
   (* internal_update; None = throws (state unchanged) *)
   Definition update (sk : sketch) (it : Item) (w : num) (s : cs) : option (sketch * cs) :=
@@ -250,17 +269,34 @@ Section Model.
     else if nltb (sk_cw a) (sk_cw b) then internal_merge b a s
     else internal_merge a b s.
 
-  (* the image written by serialize is read back to the same state iff the sample has the shape that
-     deserialize assumes: floor(c) full items, a partial item iff frac(c) != 0 *)
-  Definition shape_ok (sm : sample) : bool :=
-    Nat.eqb (length (sdata sm)) (nnat NO (nint (sc sm))) &&
-    Bool.eqb (match spart sm with Some _ => true | None => false end) (negb (neqb (nsub (sc sm) (nint (sc sm))) n0)).
+  (* a whole stream of updates; a refused update (None) leaves the sketch unchanged *)
+  Fixpoint run_updates (sk : sketch) (ups : list (Item * num)) (s : cs) : sketch * cs :=
+    match ups with
+    | [] => (sk, s)
+    | (it, w) :: r =>
+        match update sk it w s with
+        | None => run_updates sk r s
+        | Some (sk', s') => run_updates sk' r s'
+        end
+    end.
+
+  (* serialize then deserialize: the reader takes floor(c) full items and, iff frac(c) != 0, one partial item from
+     the items written (full items then the partial item); None = it throws *)
+  Definition reread (sm : sample) : option sample :=
+    let c := sc sm in
+    let nfull := nnat NO (nint c) in
+    let hasp := negb (neqb (nsub c (nint c)) n0) in
+    let seq := app_opt (sdata sm) (spart sm) in
+    if nltb c n0 then None
+    else if Nat.ltb (length seq) (nfull + (if hasp then 1 else 0)) then None
+    else if negb (Bool.eqb hasp (match spart sm with Some _ => true | None => false end)) then None
+    else Some {| sc := c; sdata := firstn nfull seq; spart := if hasp then nth_error seq nfull else None |}.
 End Model.
 
 Arguments sc {NO Item}. Arguments sdata {NO Item}. Arguments spart {NO Item}.
 Arguments sk_k {NO Item}. Arguments sk_n {NO Item}. Arguments sk_cw {NO Item}. Arguments sk_wmax {NO Item}.
 Arguments sk_rho {NO Item}. Arguments sk_smp {NO Item}.
-Arguments c_rem {NO}. Arguments c_under {NO}. Arguments c_ub {NO}.
+Arguments c_rem {NO}. Arguments c_under {NO}. Arguments c_ub {NO}. Arguments c_trap {NO}. Arguments c_site {NO}.
 
 (* ================= instance 1: binary64 ================= *)
 
@@ -324,10 +360,13 @@ Record ghost := {
   g_W : Q; g_wmax : Q; g_wmin : Q;
   g_int : bool;            (* all weights integers *)
   g_items : list Z;        (* the input multiset *)
-  g_taint : bool           (* an update/merge ran while wt_max_ lagged behind the true maximum *)
+  g_taint : bool;          (* an update/merge ran while wt_max_ lagged behind the true maximum *)
+  g_kskip : bool;          (* an empty sketch with a smaller k was merged in *)
+  g_intoempty : bool;      (* a sketch was merged into an empty sketch with a smaller k (and no update since) *)
+  g_site : Z               (* first step that broke the sample's shape by rounding (see c_site), 0 = none *)
 }.
 Definition ghost_empty (k : Z) : ghost :=
-  {| g_n := 0; g_k := k; g_W := 0%Q; g_wmax := 0%Q; g_wmin := 0%Q; g_int := true; g_items := []; g_taint := false |}.
+  {| g_n := 0; g_k := k; g_W := 0%Q; g_wmax := 0%Q; g_wmin := 0%Q; g_int := true; g_items := []; g_taint := false; g_kskip := false; g_intoempty := false; g_site := 0 |}.
 
 Record full := { f_sk : fsketch; f_g : ghost }.
 
@@ -338,19 +377,24 @@ Definition q_is_int (q : Q) : bool := Pos.eqb (Qden (Qred q)) 1.
 Definition stale (f : full) : bool :=
   negb (Qeq_bool (float_to_Q (sk_wmax (f_sk f))) (g_wmax (f_g f))).
 
-Definition ghost_update (stl : bool) (g : ghost) (it : Z) (w : Q) : ghost :=
+Definition first_site (a b : Z) : Z := if a =? 0 then b else a.
+
+Definition ghost_update (stl : bool) (site : Z) (g : ghost) (it : Z) (w : Q) : ghost :=
   {| g_n := g_n g + 1; g_k := g_k g; g_W := Qred (g_W g + w);
      g_wmax := if g_n g =? 0 then w else qmaxb (g_wmax g) w;
      g_wmin := if g_n g =? 0 then w else qminb (g_wmin g) w;
      g_int := g_int g && q_is_int w; g_items := g_items g ++ [it];
-     g_taint := g_taint g || stl |}.
+     g_taint := g_taint g || stl; g_kskip := g_kskip g; g_intoempty := false; g_site := first_site (g_site g) site |}.
 
-Definition ghost_merge (stl : bool) (a b : ghost) : ghost :=
+Definition ghost_merge (stl : bool) (site : Z) (a b : ghost) : ghost :=
   {| g_n := g_n a + g_n b; g_k := Z.min (g_k a) (g_k b); g_W := Qred (g_W a + g_W b);
      g_wmax := if g_n a =? 0 then g_wmax b else if g_n b =? 0 then g_wmax a else qmaxb (g_wmax a) (g_wmax b);
      g_wmin := if g_n a =? 0 then g_wmin b else if g_n b =? 0 then g_wmin a else qminb (g_wmin a) (g_wmin b);
      g_int := g_int a && g_int b; g_items := g_items a ++ g_items b;
-     g_taint := g_taint a || g_taint b || stl |}.
+     g_taint := g_taint a || g_taint b || stl;
+     g_kskip := g_kskip a || g_kskip b || ((g_n b =? 0) && (g_k b <? g_k a));
+     g_intoempty := g_intoempty a || g_intoempty b || ((g_n a =? 0) && (0 <? g_n b) && (g_k a <? g_k b));
+     g_site := first_site (first_site (g_site a) (g_site b)) site |}.
 
 Fixpoint insert_sorted (x : Z) (l : list Z) : list Z :=
   match l with
@@ -359,12 +403,13 @@ Fixpoint insert_sorted (x : Z) (l : list Z) : list Z :=
   end.
 Definition sort_z (l : list Z) : list Z := fold_right insert_sorted [] l.
 
-Definition cs_init (e : line) : fcs := Build_cs FloatOps e false false.
+Definition cs_init (e : line) : fcs := Build_cs FloatOps e false false false 0.
 
 (* result line of an operation that consumed draws: -4 = the C++ would have undefined behaviour here,
    -3 = the draws supplied do not match the draws needed *)
 Definition finish (s : fcs) (r : line) : line :=
   if c_ub s then [-4]
+  else if c_trap s then [-5]
   else if c_under s then [-3]
   else match c_rem s with [] => r | _ => [-3] end.
 
@@ -376,7 +421,7 @@ Definition MAX_K : Z := 2147483646.
 Definition spec_line (f : full) : line :=
   let g := f_g f in
   [g_n g; g_k g; Qnum (g_W g); Zpos (Qden (g_W g)); Qnum (g_wmax g); Zpos (Qden (g_wmax g));
-   bz (Qeq_bool (g_wmin g) (g_wmax g)); bz (g_int g); bz (g_taint g); bz (stale f)].
+   bz (Qeq_bool (g_wmin g) (g_wmax g)); bz (g_int g); bz (g_taint g); bz (stale f); bz (g_kskip g); bz (g_intoempty g); g_site g].
 
 Definition step (s : list (Z * full)) (o e : line) : list (Z * full) * outline :=
   match o with
@@ -391,8 +436,10 @@ Definition step (s : list (Z * full)) (o e : line) : list (Z * full) * outline :
           | None => (s, (refused, []))
           | Some (sk', c') =>
               let g' := if PrimFloat.eqb w PrimFloat.zero then f_g f
-                        else ghost_update (stale f) (f_g f) it (float_to_Q w) in
-              (reg_set s r {| f_sk := sk'; f_g := g' |}, (finish c' ok, []))
+                        else ghost_update (stale f) (c_site c') (f_g f) it (float_to_Q w) in
+              let f' := {| f_sk := sk'; f_g := g' |} in
+              if c_trap c' then (reg_del s r, (finish c' ok, spec_line f'))   (* the register is dropped by the harness *)
+              else (reg_set s r f', (finish c' ok, []))
           end
       | None => (s, (refused, []))
       end
@@ -424,9 +471,10 @@ Definition step (s : list (Z * full)) (o e : line) : list (Z * full) * outline :
       | Some f, Some g =>
           if r =? r2 then (s, ([-2], [])) else
           let (sk', c') := merge FloatOps Z (f_sk f) (f_sk g) (cs_init e) in
-          let g' := ghost_merge (stale f || stale g) (f_g f) (f_g g) in
-          let s1 := reg_set s r {| f_sk := sk'; f_g := g' |} in
-          ((if mode =? 1 then reg_del s1 r2 else s1), (finish c' ok, []))
+          let g' := ghost_merge (stale f || stale g) (c_site c') (f_g f) (f_g g) in
+          let f' := {| f_sk := sk'; f_g := g' |} in
+          let s1 := if c_trap c' then reg_del s r else reg_set s r f' in
+          ((if mode =? 1 then reg_del s1 r2 else s1), (finish c' ok, if c_trap c' then spec_line f' else []))
       | _, _ => (s, (refused, []))
       end
   | 7 :: r :: r2 :: _ =>                            (* serialize r, deserialize into r2, report r2's getters *)
@@ -436,8 +484,13 @@ Definition step (s : list (Z * full)) (o e : line) : list (Z * full) * outline :
           if sk_n sk =? 0 then
             let f' := {| f_sk := sketch_empty FloatOps Z (sk_k sk); f_g := f_g f |} in
             (reg_set s r2 f', (getters (f_sk f'), []))
-          else if shape_ok FloatOps Z (sk_smp sk) then (reg_set s r2 f, (getters sk, []))
-          else (s, ([-4], []))
+          else match reread FloatOps Z (sk_smp sk) with
+               | Some sm' =>
+                   let sk' := {| sk_k := sk_k sk; sk_n := sk_n sk; sk_cw := sk_cw sk; sk_wmax := sk_wmax sk;
+                                 sk_rho := sk_rho sk; sk_smp := sm' |} in
+                   (reg_set s r2 {| f_sk := sk'; f_g := f_g f |}, (getters sk', []))
+               | None => (s, (refused, spec_line f))
+               end
       | None => (s, (refused, []))
       end
   | 8 :: r :: _ =>                                  (* reset *)
